@@ -53,7 +53,7 @@ func c18Transcripts(c *kc.Ctx) []kc.Case {
 		for _, g := range insts {
 			allBase = allBase && groupCaps(g).base
 		}
-		bnd := boundaryProgs(rng.Fork("boundary"), ref.Q, src, allBase)
+		bnd := append(boundaryProgs(rng.Fork("boundary"), ref.Q, src, allBase), inplaceProgs(rng.Fork("inplace"), ref.Q, src, allBase)...)
 		for i := 0; i < nProg+len(bnd); i++ {
 			var p prog
 			if i < nProg {
